@@ -434,7 +434,7 @@ func TestC31(t *testing.T) {
 	lap("date_enumeration")
 
 	// --- B: every byte value at every position of valid dates
-	nBase := r.N(150, 15000)
+	nBase := r.N(150, 5000)
 	blocks(r, secDatePert, nBase*29*256, 29*256, func(a *agg, bi, lo, hi int) {
 		rnd := r.Rand("pert", bi)
 		tt := time.Unix(rnd.Int63n(253402300800+62135596800)-62135596800, 0).UTC()
@@ -453,7 +453,7 @@ func TestC31(t *testing.T) {
 	lap("date_byte_perturbation")
 
 	// --- C: random dates
-	nRand := r.N(1_000_000, 100_000_000)
+	nRand := r.N(1_000_000, 50_000_000)
 	blocks(r, secDateRand, nRand, 8192, func(a *agg, bi, lo, hi int) {
 		rnd := r.Rand("daterand", bi)
 		buf := make([]byte, 0, 40)
@@ -491,7 +491,7 @@ const (
 func roundTrip(r *mon.Run) {
 	const perYear = 8
 	nStruct := 9999 * perYear
-	nRand := r.N(1_000_000, 100_000_000)
+	nRand := r.N(1_000_000, 50_000_000)
 	total := nStruct + nRand
 	zones := []*time.Location{time.UTC, time.FixedZone("east", 14*3600), time.FixedZone("west", -12*3600), time.FixedZone("odd", 5*3600+45*60+17)}
 	blocks(r, secDateRT, total, 8192, func(a *agg, bi, lo, hi int) {
@@ -736,7 +736,7 @@ func ipv4(r *mon.Run) {
 		}
 	}
 	st = append(st, "", ".", "..", "...", "....", "1", "1.2", "1.2.3", "1.2.3.4.5", "1.2.3.4.", ".1.2.3.4", "1..2.3.4", "1.2.3.4 ", " 1.2.3.4", "1,2,3,4", "1.2.3.4\n", "1.2.3.4\x00", "::1", "1.2.3.4:80", "０.0.0.0")
-	nRand := r.N(600_000, 60_000_000)
+	nRand := r.N(600_000, 30_000_000)
 	total := len(st) + nRand
 	blocks(r, secIPv4, total, 8192, func(a *agg, bi, lo, hi int) {
 		rnd := r.Rand("ipv4", bi)
@@ -783,7 +783,7 @@ func ipv4(r *mon.Run) {
 
 func ipv4RoundTrip(r *mon.Run) {
 	nStruct := 4 * 256
-	nRand := r.N(400_000, 40_000_000)
+	nRand := r.N(400_000, 20_000_000)
 	total := nStruct + nRand
 	blocks(r, secIPv4RT, total, 8192, func(a *agg, bi, lo, hi int) {
 		rnd := r.Rand("ipv4rt", bi)
@@ -978,7 +978,7 @@ func ipv6(r *mon.Run) {
 			}
 		}
 	}
-	nRand := r.N(400_000, 40_000_000)
+	nRand := r.N(400_000, 20_000_000)
 	total := len(st) + nRand
 	blocks(r, secIPv6, total, 4096, func(a *agg, bi, lo, hi int) {
 		rnd := r.Rand("ipv6", bi)
